@@ -211,6 +211,13 @@ fn main() {
             total::run_one(&src);
             std::process::exit(0);
         }
+        // expand --cases F : program with constructs vs unrolled twin (C06)
+        "expand" => {
+            let cases = read_cases(&arg(&args, "--cases").expect("--cases"));
+            for c in &cases {
+                writeln!(out, "{}", text::expand_event(c)).unwrap();
+            }
+        }
         _ => {
             eprintln!("usage: rv <lin> ...");
             std::process::exit(2);
